@@ -108,7 +108,7 @@ def election_case(
     max_alphas=2,
     statuses=tuple(OTHER_STATUSES),
     allow_extra=True,
-    thresholds=(100, 100, 90, 75, 50),
+    thresholds=(100, 100, 90, 75, 50, 0),
     policies=("drop", "zero"),
     allow_features=True,
     allow_fe=True,
